@@ -25,6 +25,13 @@ import OpusProofs.RangeCoderLockstep3
     `DecAll B S e d B` invariant D: decoder `d` reading the `S`-byte stream `B` mirrors encoder `e`
                        (same rng, same nbits_total, val = top − code, same raw-bit position, error 0)
     `ShrinksOk c ops`  every `ec_enc_shrink` of the list satisfies its assert and does not grow the buffer
+
+  On the hypothesis `nbitsTotal < 4294967296` of the round-trip theorems: the C field `nbits_total` is an
+  `int`; an execution in which it reaches 2^31 has signed overflow, i.e. undefined behaviour, and is
+  outside any statement about the C code.  The model keeps the counter as an unbounded natural number,
+  and the theorems only need it below 2^32 (so that the `opus_uint32` counter `ext` of buffered 0xFF
+  bytes cannot wrap).  The hypothesis therefore only says "the C type's range was respected"; for
+  buffers up to 5·10^8 bytes it follows from `tell ≤ 8·storage` (see `done_within_budget`).
 -/
 namespace OpusProps.C08
 open Opus Opus.RangeCoder
@@ -173,7 +180,7 @@ example : LegalRun (encInit (List.replicate 12 170) 12) (exampleOps.take 17 ++ e
 
 /-- "initial-bit patching": a patch-style stream — first operation `ec_encode_bin(fl, fl+1, n)` with
     `1 ≤ n ≤ 8`, then any legal operations interleaved with any number of
-    `ec_enc_patch_initial_bits(v, n)` — written into a non-empty buffer: if `ec_enc_done` leaves
+    `ec_enc_patch_initial_bits(v, n)` — written into a buffer of any size: if `ec_enc_done` leaves
     `error = 0`, the decoder's first `ec_decode_bin(n)` returns the LAST patched value `w`
     (`lastPatch`; `fl` if nothing was patched), and after `ec_dec_update(w, w+1, 2^n)` every other
     operation decodes to exactly the encoded value; the error flag stays clear and the decoder ends
@@ -182,7 +189,6 @@ theorem decode_encode_patched (buf : List Nat) (size n fl : Nat) (rest : List Op
     (hb : BytesOk buf) (hn1 : 1 ≤ n) (hn8 : n ≤ 8) (hfl : fl < 2 ^ n)
     (hl : LegalRunP n (encOp (encInit buf size) (.encodeBin fl (fl + 1) n)) rest)
     (hnb : (encodeAll buf size (.encodeBin fl (fl + 1) n :: rest)).nbitsTotal < 4294967296)
-    (hS : 0 < (encodeAll buf size (.encodeBin fl (fl + 1) n :: rest)).storage)
     (herr : (encodeAll buf size (.encodeBin fl (fl + 1) n :: rest)).error = 0) :
     let e := encodeAll buf size (.encodeBin fl (fl + 1) n :: rest)
     let w := lastPatch fl rest
@@ -191,7 +197,7 @@ theorem decode_encode_patched (buf : List Nat) (size n fl : Nat) (rest : List Op
     r.2.rng = (encRun (encInit buf size) (.encodeBin fl (fl + 1) n :: rest)).rng ∧
     r.2.nbitsTotal = (encRun (encInit buf size) (.encodeBin fl (fl + 1) n :: rest)).nbitsTotal := by
   intro e w r
-  have h := decode_encode_patched_all buf size n fl rest hs hb hn1 hn8 hfl hl hnb hS herr
+  have h := decode_encode_patched_all buf size n fl rest hs hb hn1 hn8 hfl hl hnb herr
   refine ⟨h.1, ?_, h.2.err, h.2.rc.rng_eq, h.2.rc.nbits_eq⟩
   have hm := h.1
   show (decRun _ (.encodeBin w (w + 1) n :: rest)).1.head? = some w
